@@ -24,6 +24,7 @@ import (
 	"github.com/attestantio/go-eth2-client/spec"
 	"github.com/attestantio/vouch/util"
 	"github.com/pkg/errors"
+	"github.com/rs/zerolog"
 	"go.opentelemetry.io/otel"
 	"go.opentelemetry.io/otel/attribute"
 	"go.opentelemetry.io/otel/trace"
@@ -68,31 +69,11 @@ func (s *Service) Proposal(ctx context.Context,
 	errCh := make(chan *beaconBlockError, requests)
 	// Kick off the requests.
 	for name, provider := range s.proposalProviders {
-		providerGraffiti := opts.Graffiti[:]
-		if bytes.Contains(providerGraffiti, []byte("{{CLIENT}}")) {
-			if nodeClientProvider, isProvider := provider.(eth2client.NodeClientProvider); isProvider {
-				nodeClientResponse, err := nodeClientProvider.NodeClient(ctx)
-				if err != nil {
-					log.Warn().Err(err).Msg("Failed to obtain node client; not updating graffiti")
-				} else {
-					providerGraffiti = bytes.ReplaceAll(providerGraffiti, []byte("{{CLIENT}}"), []byte(nodeClientResponse.Data))
-				}
-				if len(providerGraffiti) > 32 {
-					providerGraffiti = providerGraffiti[0:32]
-				}
-				// The graffiti may now be shorter than 32 bytes, so pad it rather than convert it.
-				var paddedGraffiti [32]byte
-				copy(paddedGraffiti[:], providerGraffiti)
-				// Replace entire opts structure so the mutated graffiti does not leak to other providers.
-				opts = &api.ProposalOpts{
-					Slot:                   opts.Slot,
-					RandaoReveal:           opts.RandaoReveal,
-					Graffiti:               paddedGraffiti,
-					SkipRandaoVerification: opts.SkipRandaoVerification,
-				}
-			}
-		}
-		go s.beaconBlockProposal(ctx, started, name, provider, respCh, errCh, opts)
+		// The provider's own options are worked out in its goroutine: finding out the name of its
+		// client is a request to the node, and a node that does not answer must not hold up the others.
+		go func(name string, provider eth2client.ProposalProvider) {
+			s.beaconBlockProposal(ctx, started, name, provider, respCh, errCh, providerProposalOpts(ctx, log, provider, opts))
+		}(name, provider)
 	}
 
 	// Wait for all responses (or context done).
@@ -272,4 +253,38 @@ func (s *Service) beaconBlockProposal(ctx context.Context,
 		proposal: proposal,
 		score:    score,
 	}
+}
+
+// providerProposalOpts provides the proposal options for a given provider: those supplied,
+// with the name of the provider's client in the graffiti if it asks for one.
+func providerProposalOpts(ctx context.Context,
+	log zerolog.Logger,
+	provider eth2client.ProposalProvider,
+	opts *api.ProposalOpts,
+) *api.ProposalOpts {
+	providerGraffiti := opts.Graffiti[:]
+	if !bytes.Contains(providerGraffiti, []byte("{{CLIENT}}")) {
+		return opts
+	}
+	nodeClientProvider, isProvider := provider.(eth2client.NodeClientProvider)
+	if !isProvider {
+		return opts
+	}
+	nodeClientResponse, err := nodeClientProvider.NodeClient(ctx)
+	if err != nil {
+		log.Warn().Err(err).Msg("Failed to obtain node client; not updating graffiti")
+	} else {
+		providerGraffiti = bytes.ReplaceAll(providerGraffiti, []byte("{{CLIENT}}"), []byte(nodeClientResponse.Data))
+	}
+	if len(providerGraffiti) > 32 {
+		providerGraffiti = providerGraffiti[0:32]
+	}
+	// The graffiti may now be shorter than 32 bytes, so pad it rather than convert it.
+	var paddedGraffiti [32]byte
+	copy(paddedGraffiti[:], providerGraffiti)
+	// A copy of the options, so that this provider's graffiti does not leak to other providers.
+	providerOpts := *opts
+	providerOpts.Graffiti = paddedGraffiti
+
+	return &providerOpts
 }
